@@ -186,6 +186,15 @@ func (ex *Exec) applyContract(st *State, c *Contract, args []*Val, sig *types.Si
 		ex.fail("contract %s has %d parameter names but the call passes %d values", c.Key, len(names), len(args))
 	}
 	vars := map[string]*Val{}
+	if isFT && strings.Count(c.Key, ":") >= 2 {
+		// contract of a function-typed parameter: the enclosing function's parameters are in scope
+		fr := st.frame
+		for _, p := range fr.fn.Params {
+			if v, ok := fr.vals[p]; ok {
+				vars[p.Name()] = v
+			}
+		}
+	}
 	for k, n := range names {
 		vars[n] = args[k]
 	}
